@@ -66,8 +66,9 @@ def quantifier_shapes(name):
     ds = (None,) if R.is_classical(name) else (True, False)
     for q in A.QUANTS:
         for negated in (False, True):
-            # the body atomic and negated (an instance must be the body with the constant, not "its opposite")
-            for vname, body in (('', Fx), ('~', A.neg(Fx))):
+            # the body atomic, negated (an instance must be the body with the constant, not "its opposite") and binary
+            # (the variable must be replaced in every operand)
+            for vname, body in (('', Fx), ('~', A.neg(Fx)), ('&', A.op('Conjunction', Fx, Fx))):
                 core = ('Q', q, A.var(0), body)
                 s = A.neg(core) if negated else core
                 for d in ds:
